@@ -1,0 +1,205 @@
+//go:build verif
+
+package rosmar
+
+import (
+	"database/sql"
+	"sync"
+	"sync/atomic"
+)
+
+// Verification instrumentation, compiled only with `-tags verif`.
+
+// VerifHook, when set, is called at every instrumentation point with the point's name.
+var VerifHook atomic.Pointer[func(point string, args ...any)]
+
+func verifPoint(point string, args ...any) {
+	if h := VerifHook.Load(); h != nil {
+		(*h)(point, args...)
+	}
+}
+
+// VerifSetHook installs (or with nil removes) the instrumentation callback.
+func VerifSetHook(h func(point string, args ...any)) {
+	if h == nil {
+		VerifHook.Store(nil)
+	} else {
+		VerifHook.Store(&h)
+	}
+}
+
+var verifNow atomic.Pointer[func() uint32]
+
+func verifNowOverride() (uint32, bool) {
+	if f := verifNow.Load(); f != nil {
+		return (*f)(), true
+	}
+	return 0, false
+}
+
+// VerifSetNow scripts the wall clock used for expiry computations (nil restores the real clock).
+func VerifSetNow(f func() uint32) {
+	if f == nil {
+		verifNow.Store(nil)
+	} else {
+		verifNow.Store(&f)
+	}
+}
+
+type verifClock struct{ f func() uint64 }
+
+func (c *verifClock) getTime() uint64 { return c.f() }
+
+// VerifSetClock replaces the physical clock of the process-global hybrid logical clock
+// (nil restores the system clock).
+func VerifSetClock(f func() uint64) {
+	hlc.mutex.Lock()
+	defer hlc.mutex.Unlock()
+	if f == nil {
+		hlc.clock = &systemClock{}
+	} else {
+		hlc.clock = &verifClock{f: f}
+	}
+}
+
+// VerifResetHLC emulates a new process: the logical clock forgets what it handed out.
+func VerifResetHLC(highest uint64) {
+	hlc.mutex.Lock()
+	defer hlc.mutex.Unlock()
+	hlc.highestTime = highest
+}
+
+// VerifHLCHighest returns the clock's current high-water mark.
+func VerifHLCHighest() uint64 {
+	hlc.mutex.Lock()
+	defer hlc.mutex.Unlock()
+	return hlc.highestTime
+}
+
+// VerifHLCNow draws a timestamp from the process-global clock.
+func VerifHLCNow() uint64 { return uint64(hlc.Now()) }
+
+// VerifRow is the raw stored form of a document.
+type VerifRow struct {
+	Found     bool
+	Value     []byte
+	ValueNull bool
+	Cas       uint64
+	Exp       uint32
+	IsJSON    bool
+	Xattrs    []byte
+	XattrsNil bool
+	Tombstone int
+	RevSeqNo  uint64
+}
+
+// VerifRawRow reads the stored row of a key, bypassing the public API.
+func VerifRawRow(c *Collection, key string) (r VerifRow, err error) {
+	c.bucket.mutex.Lock()
+	db := c.bucket.sqliteDB
+	c.bucket.mutex.Unlock()
+	var value, xattrs sql.RawBytes
+	rows, err := db.Query(`SELECT value, cas, exp, isJSON, xattrs, tombstone, revSeqNo FROM documents WHERE collection=?1 AND key=?2`, c.id, key)
+	if err != nil {
+		return r, err
+	}
+	defer rows.Close()
+	if !rows.Next() {
+		return r, rows.Err()
+	}
+	var isJSON sql.NullBool
+	var exp sql.NullInt64
+	if err = rows.Scan(&value, &r.Cas, &exp, &isJSON, &xattrs, &r.Tombstone, &r.RevSeqNo); err != nil {
+		return r, err
+	}
+	r.Found = true
+	r.ValueNull = value == nil
+	r.Value = append([]byte(nil), value...)
+	r.XattrsNil = xattrs == nil
+	r.Xattrs = append([]byte(nil), xattrs...)
+	r.IsJSON = isJSON.Bool
+	r.Exp = uint32(exp.Int64)
+	return r, nil
+}
+
+// VerifKeys lists every stored key (tombstones included) of a collection.
+func VerifKeys(c *Collection) (keys []string, err error) {
+	c.bucket.mutex.Lock()
+	db := c.bucket.sqliteDB
+	c.bucket.mutex.Unlock()
+	rows, err := db.Query(`SELECT key FROM documents WHERE collection=?1 ORDER BY key`, c.id)
+	if err != nil {
+		return nil, err
+	}
+	defer rows.Close()
+	for rows.Next() {
+		var k string
+		if err = rows.Scan(&k); err != nil {
+			return nil, err
+		}
+		keys = append(keys, k)
+	}
+	return keys, rows.Err()
+}
+
+// VerifLastCas returns the persisted high-water marks (bucket row, collection row).
+func VerifLastCas(c *Collection) (bucketCas, collCas uint64, err error) {
+	c.bucket.mutex.Lock()
+	db := c.bucket.sqliteDB
+	c.bucket.mutex.Unlock()
+	if err = db.QueryRow(`SELECT lastCas FROM bucket`).Scan(&bucketCas); err != nil {
+		return
+	}
+	err = db.QueryRow(`SELECT lastCas FROM collections WHERE id=?1`, c.id).Scan(&collCas)
+	return
+}
+
+// VerifCollectionRowID returns the collection's row id in the collections table.
+func VerifCollectionRowID(c *Collection) uint32 { return uint32(c.id) }
+
+// VerifRegistry is a snapshot of the process-wide bucket registry.
+func VerifRegistry() (counts map[string]uint, present map[string]bool) {
+	cluster.lock.Lock()
+	defer cluster.lock.Unlock()
+	counts = map[string]uint{}
+	present = map[string]bool{}
+	for k, v := range cluster.bucketCount {
+		counts[k] = v
+	}
+	for k := range cluster.buckets {
+		present[k] = true
+	}
+	return
+}
+
+// VerifExpiryState reports the expiry manager's next scheduled time and whether a timer exists.
+func VerifExpiryState(b *Bucket) (next uint32, timerSet bool) {
+	b.expManager.mutex.Lock()
+	defer b.expManager.mutex.Unlock()
+	return *b.expManager.nextExp, b.expManager.timer != nil
+}
+
+// VerifFireExpiry runs the expiry timer's function now, as the timer goroutine would.
+func VerifFireExpiry(b *Bucket) { b.expManager.runExpiry() }
+
+// VerifStopExpiryTimer stops the real timer so that only VerifFireExpiry runs expirations.
+func VerifStopExpiryTimer(b *Bucket) { b.expManager.stop() }
+
+// VerifFeedCount returns how many live feeds are registered per collection name.
+func VerifFeedCount(b *Bucket) map[string]int {
+	b.mutex.Lock()
+	defer b.mutex.Unlock()
+	out := map[string]int{}
+	for k, v := range b.collectionFeeds {
+		out[k.String()] = len(v)
+	}
+	return out
+}
+
+// VerifActiveFeeds returns the number of running feed goroutines in the process.
+func VerifActiveFeeds() int32 { return atomic.LoadInt32(&activeFeedCount) }
+
+// VerifMutexes exposes lock identities for wait-for diagnostics.
+func VerifMutexes(b *Bucket) (bucketMutex, expiryMutex *sync.Mutex) {
+	return b.mutex, b.expManager.mutex
+}
